@@ -145,6 +145,9 @@ func (g *ExprGen) Expr(kind string, d int) string {
 		if deep {
 			switch rapid.IntRange(0, 8).Draw(g.T, "intform") {
 			case 0:
+				if rapid.IntRange(0, 5).Draw(g.T, "mod") == 0 {
+					return g.Expr("int", d+1) + " % " + g.pickS("modarg", "3", "7", "n", "(j + 1)")
+				}
 				return g.Expr("int", d+1) + g.pickS("intop", " + ", " - ", " * ", " | ", " & ", " ^ ") + g.Expr("int", d+1)
 			case 1:
 				return "(" + g.Expr("int", d+1) + ")"
@@ -196,7 +199,7 @@ func (g *ExprGen) Expr(kind string, d int) string {
 				return "(" + g.Expr("str", d+1) + ")"
 			}
 		}
-		return g.pickS("str0", "s", "s2", "sep", `""`, `"a"`, `"a b"`, "`raw`", "st.s", "gs", "string(ms)", `"é"`, `"%s"`, `"\n"`)
+		return g.pickS("str0", "s", "s2", "sep", `""`, `"a"`, `"a b"`, "`raw`", "st.s", "gs", "string(ms)", `"é"`, `"%s"`, `"\n"`, `"%d items"`, `"100%"`)
 	case "bool":
 		if impure {
 			return "trb(" + g.Expr("bool", d+1) + ")"
@@ -250,13 +253,13 @@ func (g *ExprGen) Expr(kind string, d int) string {
 	case "mark":
 		return "mark(" + strconv.Itoa(rapid.IntRange(0, 99).Draw(g.T, "markn")) + ")"
 	case "stmt":
-		return g.pickS("stmt", "mark(7)", "i++", "_ = s", "sink(i, s)", "j = i", "", "{ }", "if b { return }", "for range xs { }", "defer mark(1)", "s += sep", "xs = append(xs, i)", "var _ = 0", "_ = 0")
+		return g.pickS("stmt", "mark(7)", "i++", "_ = s", "sink(i, s)", "mark(i % 3)", `sink("%d", i)`, "j = i", "", "{ }", "if b { return }", "for range xs { }", "defer mark(1)", "s += sep", "xs = append(xs, i)", "var _ = 0", "_ = 0")
 	case "cmpop":
 		return g.pickS("cmpop", "<", "<=", ">", ">=", "==", "!=")
 	case "intlit":
 		return g.pickS("intlit", "0", "1", "2", "5", "10", "010", "0x10", "0o17", "0b11", "1_0", "'a'", "100")
 	case "strlit":
-		return g.pickS("strlit", `""`, `"a"`, `"abc"`, `"a|b"`, "`x`", `"%s"`, `"'%s'"`, `"\"%s\""`, `"."`, `"/"`)
+		return g.pickS("strlit", `""`, `"a"`, `"abc"`, `"a|b"`, "`x`", `"%s"`, `"'%s'"`, `"\"%s\""`, `"."`, `"/"`, `"%d%%"`, `"%v %"`)
 	case "ntype":
 		return g.pickS("ntype", "*S", "[]int", "map[string]int", "func()", "chan int", "<-chan int", "interface{}", "error",
 			"func(int) int", "*[4]int", "[]*S", "**int", "chan<- int", "*int", "func() (int, error)", "any", "Iface")
